@@ -13,6 +13,7 @@ from . import seams
 from .gen import propose
 from .ops import KINDS, View, Skip, Out
 from .profiles import PROFILES, Ctx, Violation
+from . import emlops, profiles2  # noqa: F401  (register kinds and profiles)
 from .world import World, state_key
 
 Node = B.Node
@@ -92,6 +93,7 @@ def simulate(prop, cfg, ops=None, known=(), digest=False, want_trace=False, stat
     W.cur_sess = 0
     W.burst_left = 0
     W.recent_ns = []
+    W.corpus_loaded = False
     W.cfg = cfg
     state = {"collisions": []}
     profile.start(state)
@@ -136,8 +138,11 @@ def simulate(prop, cfg, ops=None, known=(), digest=False, want_trace=False, stat
                 v = Violation(prop, "hang", "%s:hang" % op["k"],
                               "operation %s did not return within %gs" % (op["k"], STEP_WATCHDOG_S))
                 v.step, v.op = len(res.ops) - 1, op
-                if op["k"] in own:
+                # a hang is a verdict only where the property promises an outcome
+                if op["k"] in own and profile.hang_is_judged(pre, R, op, kobj):
                     res.violation = v
+                else:
+                    res.probes["aborted_unjudged_hang"] = res.probes.get("aborted_unjudged_hang", 0) + 1
                 break
             signal.setitimer(signal.ITIMER_REAL, 0)
             exp = kobj.spec(pre, R, op, out)
@@ -169,7 +174,8 @@ def simulate(prop, cfg, ops=None, known=(), digest=False, want_trace=False, stat
                 sha.update(out.brief().encode())
                 sha.update(repr(post.cells).encode("utf-8", "backslashreplace"))
                 sha.update(repr(sorted(post.store.items(), key=repr)).encode("utf-8", "backslashreplace"))
-            if states:
+            if states and (len(post.cells) <= 48 or i >= nsteps):
+                # every step for small worlds, the final state only for large ones
                 res.states.add(state_key(W, post))
             if v is not None:
                 v.step, v.op = c.step, op
